@@ -489,6 +489,22 @@ def _run(ctx):
          "ops": [{"op": "insert", "i": -1, "arg": {"k": "list", "t": "list", "c": [{"k": "num", "v": 1}, {"k": "text", "s": "z"}]}},
                  {"op": "extend", "arg": {"k": "text", "s": "whole"}}]},
     ]
+    # sizes ordinary use never reaches: thousands of items in one argument, containers nested a hundred levels deep, an
+    # invalid object at the very end / bottom of such an argument
+    def _nest(leaf, depth, kinds=("list", "tuple", "taglist")):
+        r_ = leaf
+        for d_ in range(depth):
+            r_ = {"k": "list", "t": kinds[d_ % len(kinds)], "c": [{"k": "text", "s": "n%d" % d_}, r_, {"k": "none"}]}
+        return r_
+    wide_ = {"k": "list", "t": "list", "c": [{"k": "num", "v": k_} if k_ % 3 == 0 else {"k": "text", "s": "w%d" % k_} if k_ % 3 == 1 else {"k": "none"} for k_ in range(3500)]}
+    fixed += [
+        {"via": "taglist", "start": [{"k": "text", "s": "a"}], "ops": [{"op": "extend", "arg": wide_}, {"op": "insert", "i": 1700, "arg": wide_}, {"op": "iadd", "arg": wide_}]},
+        {"via": "tag", "start": [wide_], "ops": [{"op": "append", "args": [wide_, {"k": "text", "s": "z"}]}, {"op": "insert", "i": -3, "arg": {"k": "text", "s": "y"}}]},
+        {"via": "taglist", "start": [_nest({"k": "text", "s": "bottom"}, 120)], "ops": [{"op": "append", "args": [_nest({"k": "num", "v": 7}, 150, ("list", "tuple"))]}]},
+        {"via": "tag", "start": [{"k": "text", "s": "keep"}], "ops": [{"op": "extend", "arg": {"k": "list", "t": "list", "c": wide_["c"] + [{"k": "bad", "t": "object"}]}},
+                                                                   {"op": "append", "args": [_nest({"k": "bad", "t": "dict"}, 90, ("list", "tuple"))]},
+                                                                   {"op": "append", "args": [{"k": "text", "s": "after"}]}]},
+    ]
     for i, h in enumerate(fixed):
         if ctx.mine(i):
             ctx.guard(run_history, ctx, h, witness={"history": h})
